@@ -129,13 +129,24 @@ impl Op {
             // pathological cases)
             let def = &parameters.definition;
             // The modifier may sit anywhere in the invocation, and be spelled 'inv=true'
-            let inverted = def
-                .split_into_parameters()
-                .get("inv")
-                .is_some_and(|v| v.is_empty() || v.to_lowercase() == "true");
+            let modifiers = def.split_into_parameters();
+            let is_set = |key: &str| {
+                modifiers
+                    .get(key)
+                    .is_some_and(|v| v.is_empty() || v.to_lowercase() == "true")
+            };
+            let inverted = is_set("inv");
             let mut next_param = parameters.next(def);
             next_param.definition = macro_definition;
-            return Op::op(next_param, ctx)?.handle_inversion(inverted);
+            let mut op = Op::op(next_param, ctx)?.handle_inversion(inverted)?;
+            // omit_fwd/omit_inv of an invocation apply to the invocation as a whole,
+            // not to each and every step of the macro body
+            for modifier in ["omit_fwd", "omit_inv"] {
+                if is_set(modifier) {
+                    op.params.boolean.insert(modifier);
+                }
+            }
+            return Ok(op);
         }
 
         // A built in operator?
